@@ -45,7 +45,7 @@ RULE = ("(1) Exhaustive prefix tree of the real controller objects over the 6-le
         "configuration are distinct by construction; `exhaustive: true` refers to THIS depth-bounded space only "
         "(every history up to that depth; since steps <= 6 every history has stopped by depth 6). Every leaf is then "
         "continued along ONE randomly drawn suffix to length 12 (sampled, not exhaustive; only stickiness can fail "
-        "there). (2) reset: every tree node of depth <= 4 of ReduceToBason is reset and compared with a fresh "
+        "there). (2) reset: every tree node of depth <= 4 (quick) / 5 (thorough) of ReduceToBason is reset and compared with a fresh "
         "controller on a random continuation (positive / negative-first / batched losses). (3) random real-valued "
         "and batched loss sequences of length 12..200 with every comparison a factor >= 1.5 away from its threshold. "
         "(4) driver loops on tiny real problems (LM/GN pose inversion, LTI MPC, batched ICP) with spies. "
@@ -209,10 +209,6 @@ class StubGN(_Optimizer):
         o = type(self)(self.loss, self.last)
         memo[id(self)] = o
         return o
-
-
-def is_true(x):
-    return x is True or (isinstance(x, (bool, np.bool_)) and bool(x))
 
 
 def cont_of(obj):
@@ -907,7 +903,6 @@ def run(ck):
         ck.inconclusive_because("reference automata fail their hand-written traces: " + ", ".join(bad))
         return
     depth = 7 if thorough else 6
-    rng = ck.rng("c20")
 
     # ---- 3: random sequences
     nseq = 1500 if thorough else 250
@@ -925,7 +920,6 @@ def run(ck):
     cfgs = [(s, p) for s in range(1, 7) for p in range(1, 5)]
     items = [("RtB", s, p, j % ck.nshards) for j, (s, p) in enumerate(cfgs)] + \
             [("SoP", s, p, (ck.nshards - 1 - j) % ck.nshards) for j, (s, p) in enumerate(cfgs)]
-    swept = 0
     for c, s, p, owner in items:
         if owner != ck.shard:
             continue
@@ -938,15 +932,13 @@ def run(ck):
             tree_sop(ck, s, p, depth, trng, tally, StubLM)
             mon = "tree.StopOnPlateau"
         else:
-            tree_rtb(ck, s, p, depth, trng, tally)
+            tree_rtb(ck, s, p, depth, trng, tally, reset_depth=5 if thorough else 4)
             mon = "tree.ReduceToBason"
         expected = sum(6 ** l for l in range(1, depth + 1))
         if tally.flooded:
             ck.note_add("tree_configurations_cut_short_after_violation_flood", 1)
         elif tally.nodes != expected:
             ck.inconclusive_because(f"tree {c} steps={s} patience={p}: visited {tally.nodes} nodes, expected {expected}")
-        else:
-            swept += 1
         for cause, n in sorted(tally.by_cause.items()):
             ck.count(mon, f"steps{s}/pat{p}/first-stop:{cause}", n=n, key=(c, s, p, cause))
             ck.mark(f"{mon}/first-stop:{cause}", n)
@@ -981,7 +973,7 @@ def run(ck):
     n_tree = sum(6 ** l for l in range(1, depth + 1))
     ck.floor("tree.StopOnPlateau", 24 * n_tree)
     ck.floor("tree.ReduceToBason", 24 * n_tree)
-    ck.floor("reset.ReduceToBason", 24 * 1000)
+    ck.floor("reset.ReduceToBason", 24 * sum(6 ** l for l in range(1, (5 if thorough else 4) + 1)))
     ck.floor("random.ReduceToBason", 200)
     ck.floor("random.StopOnPlateau", 200)
     ck.floor("driver.optimize", 20)
